@@ -63,12 +63,12 @@ func DefaultChainSlots() []SlotSpec {
 }
 
 type Op struct {
-	Kind  string  `json:"kind"` // entry|exit|trace|callee|whenexit|tick|snap
-	Res   int     `json:"res,omitempty"`
-	Inb   bool    `json:"inb,omitempty"`
-	Dflt  bool    `json:"dflt,omitempty"`  // entry: options whose value is the default are NOT passed (the pooled
+	Kind string `json:"kind"` // entry|exit|trace|callee|whenexit|tick|snap
+	Res  int    `json:"res,omitempty"`
+	Inb  bool   `json:"inb,omitempty"`
+	Dflt bool   `json:"dflt,omitempty"` // entry: options whose value is the default are NOT passed (the pooled
 	// EntryOptions must have been reset to the defaults by the previous call, whatever that call set)
-	RType int32   `json:"rtype,omitempty"` // entry: WithResourceType (0 = ResTypeCommon, the default); the model
+	RType int32 `json:"rtype,omitempty"` // entry: WithResourceType (0 = ResTypeCommon, the default); the model
 	// has no such field: a resource is its NAME, whatever classification a caller gives it
 	Batch uint32  `json:"batch,omitempty"`
 	Flag  int32   `json:"flag,omitempty"`
@@ -87,6 +87,10 @@ type Case struct {
 	NRes   int         `json:"nres"`
 	Chains []ChainSpec `json:"chains"`
 	Ops    []Op        `json:"ops"`
+	// Long: entries are held open for long virtual times (ticks of a minute to hours, far beyond the
+	// 10 s statistic window): what is compared is each completion's OWN response time (the done calls of
+	// the recording slots, ctx.Rt()), live views and outcomes; the windowed node sums are not read
+	Long bool `json:"long,omitempty"`
 }
 
 // ---- observations -------------------------------------------------------------------------
@@ -239,6 +243,18 @@ type checkSlot struct {
 }
 
 func (c *checkSlot) Order() uint32 { return c.s.Order }
+
+// writeVerdictInPlace: what a built-in slot does before it returns a block: ResetToBlocked* on the pooled result
+func (c *checkSlot) writeVerdictInPlace(ctx *base.EntryContext) {
+	// (type only: message / rule / snapshot written here would shine through into the block error of a
+	// later slot that blocks with a shorter reset form - ResetToBlockedWith only overwrites what it is
+	// given -, which is a matter of the slots' contract, not of the chain)
+	id := c.s.ID
+	if id < 0 {
+		id = -id
+	}
+	ctx.RuleCheckResult.ResetToBlocked(base.BlockType(1 + id%4))
+}
 func (c *checkSlot) Check(ctx *base.EntryContext) *base.TokenResult {
 	c.r.seenCtx = c.r.noteCtx(ctx)
 	c.r.log = append(c.r.log, Call{K: "check", ID: c.s.ID})
@@ -246,6 +262,12 @@ func (c *checkSlot) Check(ctx *base.EntryContext) *base.TokenResult {
 	style := (c.s.ID + int(ctx.Input.Flag)) % 2
 	switch b.K {
 	case "nil":
+		if (c.s.ID*5+int(ctx.Input.Flag))%3 == 1 {
+			// a monitor-only / dry-run wrapper around a built-in slot: the block verdict is written IN PLACE
+			// into the context's pooled result, but the slot lets the request pass (returns nil).  No slot
+			// blocked => the request is admitted, whatever was left in the pooled result (model: CNil)
+			c.writeVerdictInPlace(ctx)
+		}
 		return nil
 	case "wait":
 		return base.NewTokenResultShouldWait(0)
@@ -259,11 +281,7 @@ func (c *checkSlot) Check(ctx *base.EntryContext) *base.TokenResult {
 			// context's pooled result when the slot panics (e.g. while auditing the rejected request).  The
 			// request is passed; whatever the slot left in the pooled result must not survive
 			// (model: CPanic - the verdict of a slot that did not return does not exist)
-			id := c.s.ID
-			if id < 0 {
-				id = -id
-			}
-			ctx.RuleCheckResult.ResetToBlockedWithCause(base.BlockType(1+id%4), msgOf(int64(id%5)), rulePool[id%len(rulePool)], int64(id))
+			c.writeVerdictInPlace(ctx)
 		}
 		panic("vh: rule check slot panic")
 	case "block":
@@ -307,7 +325,13 @@ func (c *checkSlot) Check(ctx *base.EntryContext) *base.TokenResult {
 		return base.NewTokenResultBlockedWithCause(bt, msg, rule, snap)
 	default: // pass
 		if style == 0 {
+			// the slot states its verdict on the pooled result (an earlier slot may have left one there)
+			ctx.RuleCheckResult.ResetToPass()
 			return ctx.RuleCheckResult
+		}
+		if (c.s.ID*5+int(ctx.Input.Flag))%3 == 2 {
+			// an allow-list override after the verdict was written in place: a fresh pass result is returned
+			c.writeVerdictInPlace(ctx)
 		}
 		return base.NewTokenResultPass()
 	}
@@ -480,10 +504,12 @@ func (r *runner) snapshot() Obs {
 		}
 		o.Live = append(o.Live, lv)
 	}
-	for k := 0; k < r.c.NRes; k++ {
-		o.Cnt = append(o.Cnt, r.counters(k))
+	if !r.c.Long {
+		for k := 0; k < r.c.NRes; k++ {
+			o.Cnt = append(o.Cnt, r.counters(k))
+		}
+		o.Cnt = append(o.Cnt, r.counters(-1))
 	}
-	o.Cnt = append(o.Cnt, r.counters(-1))
 	for _, b := range r.rets {
 		o.Ret = append(o.Ret, *berrOf(b))
 	}
@@ -507,13 +533,39 @@ func guard(f func()) (escaped string) {
 // and drops writes whose time is behind them.
 func CaseBaseMs(id int) uint64 { return 3000000000000 + uint64(id%1000000)*100000 }
 
+// clockFloor: a long-hold case advances the virtual clock by hours, past the start of the cases that
+// follow; the clock never goes backwards within a process (the statistic arrays drop writes behind
+// their newest bucket), so a case starts at CaseBaseMs(id) or, if the clock is already beyond it, one
+// case distance after where the clock stands (bucket aligned).  Only time DIFFERENCES are observed
+// (response times, window membership), so the shift does not change any observation.
+var clockFloor uint64
+
+// SetCaseClock starts case id on the virtual clock
+func SetCaseClock(clk interface {
+	SetMs(uint64)
+}, id int) {
+	b := CaseBaseMs(id)
+	if b < clockFloor {
+		b = clockFloor
+	}
+	clk.SetMs(b)
+}
+
+// EndCaseClock notes where the clock stands when a case ends
+func EndCaseClock(nowMs uint64) {
+	if f := (nowMs/100000 + 2) * 100000; f > clockFloor {
+		clockFloor = f
+	}
+}
+
 // Run executes the case on the implementation and returns one observation per operation.
 func Run(c *Case, clk *vclock.Clock) []Obs {
 	r := &runner{c: c, ctxID: map[*base.EntryContext]int{}, errs: map[int64]*vhErr{}, resIdx: map[string]int{}, exited: map[int]bool{}}
 	for k := 0; k < c.NRes; k++ {
 		r.resIdx[ResName(c.ID, k)] = k
 	}
-	clk.SetMs(CaseBaseMs(c.ID))
+	SetCaseClock(clk, c.ID)
+	defer func() { EndCaseClock(clk.CurrentTimeMillis()) }()
 	r.build()
 	r.inbBase = CntView{}
 	r.inbBase = r.counters(-1)
@@ -731,6 +783,9 @@ func Coq(c *Case, obs []Obs) string {
 		keys = append(keys, strconv.Itoa(k))
 	}
 	keys = append(keys, "(-1)")
+	if c.Long {
+		keys = nil
+	}
 	for i, o := range c.Ops {
 		ob := obs[i]
 		put := func(s string) {
@@ -962,6 +1017,7 @@ func Gen(r *rng.R, id int, prof Profile) *Case {
 		}
 		c.Chains = append(c.Chains, ch)
 	}
+	c.Long = prof == ProfC01 && r.Chance(1, 6)
 	nops := 8 + r.Intn(34)
 	nent := 0
 	var total uint64
@@ -1019,7 +1075,9 @@ func Gen(r *rng.R, id int, prof Profile) *Case {
 			c.Ops = append(c.Ops, Op{Kind: "whenexit", E: r.Intn(nent), HID: hid, HB: hb})
 		case x < 92:
 			dt := uint64(r.PickI(0, 1, 2, 5, 17, 100, 499, 500, 501))
-			if total+dt > 8000 {
+			if c.Long {
+				dt = uint64(r.PickI(59999, 60000, 60001, 60002, 61000, 120000, 3600000, 7200001, 500, 1))
+			} else if total+dt > 8000 {
 				dt = 0
 			}
 			total += dt
